@@ -2,20 +2,20 @@
 import json, os
 from common import *
 
-CFGS = ["default", "noempty", "rev", "devdefault", "devnoempty"]
+CFGS = ["default", "noempty", "rev", "devdefault", "devnoempty", "long"]
 EXTS = {"default": ["-", ".jet"], "noempty": [".jet"], "rev": [".jet", "-"],
-        "devdefault": ["-", ".jet"], "devnoempty": [".jet"]}
+        "devdefault": ["-", ".jet"], "devnoempty": [".jet"], "long": [".a", ".b", ".c", ".d", ".jet"]}
 
 def run(rep, tier, seed):
     wd = spec_scratch()
     rep.rule = ("MC: all histories up to MaxOps over {GetTemplate, ExecInclude, Parse(plain/extends y/extends x), LoaderSet, "
-                "LoaderDelete, InjectFault(open/read/unparsable), ClearFault} x 5 initial worlds x 5 (extension list, dev) "
+                "LoaderDelete, InjectFault(open/read/unparsable), ClearFault} x 5 initial worlds x 6 (extension list, dev) "
                 "configurations; vectors: every history of length 3 (BFS) plus simulated histories of length 8, each replayed "
                 "on a real Set twice (custom recording cache / default cache); non-trivial = history contains a lookup or a "
                 "Parse with extends; distinct by full history. traces: seeded random histories recorded from the real Set")
     exe = build_harness()
     mcops = 4 if tier == "quick" else 5
-    cfgs = CFGS if tier == "thorough" else ["default", "noempty", "rev", "devdefault"]
+    cfgs = CFGS if tier == "thorough" else ["default", "noempty", "rev", "devdefault", "long"]
     for c in cfgs:
         cfg = "MC_Set_%s.cfg" % c
         txt = open(os.path.join(wd, cfg)).read().replace("MaxOps = 4", "MaxOps = %d" % mcops)
